@@ -173,7 +173,7 @@ class Op:
         raise NotImplementedError
 
     def req(self, c):  # driver request (without "op")
-        return {k: v for k, v in c.items() if k not in ("bad", "opname")}
+        return {k: v for k, v in c.items() if k not in ("bad", "opname", "pending")}
 
 
 def sel_modes(N, dims, excl):
@@ -974,24 +974,393 @@ class KtensorModes(Op):
 
 
 class Nvecs(Op):
-    """leading mode-n vectors: the mode argument"""
+    """leading mode-n vectors: the mode and the number of vectors"""
     name = "nvecs"
-    covers = (("tensor", "nvecs"), ("sptensor", "nvecs"), ("ttensor", "nvecs"))
+    covers = (("tensor", "nvecs"), ("sptensor", "nvecs"), ("ttensor", "nvecs"), ("ktensor", "nvecs"))
 
     def gen(self, rng, tier):
         out = []
         for s in ([2, 3, 4], [3, 3], [2, 4, 2], [3, 2]):
             N = len(s)
-            for rep in ("dense", "sparse", "ttensor"):
+            for rep in ("dense", "sparse", "ttensor", "ktensor"):
                 for m in range(N):
-                    out.append({"rep": rep, "shape": s, "fn": "nvecs", "R": 1, "arg": m, "bad": None})
+                    for r in sorted({1, s[m]}):
+                        out.append({"rep": rep, "shape": s, "R": r, "arg": m, "bad": None})
+                    out.append({"rep": rep, "shape": s, "R": s[m] + 1, "arg": m, "bad": "more vectors than the extent", "pending": True})
+                    out.append({"rep": rep, "shape": s, "R": s[m] + 3, "arg": m, "bad": "more vectors than the extent", "pending": True})
+                    out.append({"rep": rep, "shape": s, "R": 0, "arg": m, "bad": "no vector"})
+                    out.append({"rep": rep, "shape": s, "R": -1, "arg": m, "bad": "no vector"})
                 for m, what in ((N, "mode=N"), (N + 2, "mode>N"), (-1, "mode<0"), (-N, "mode=-N")):
-                    out.append({"rep": rep, "shape": s, "fn": "nvecs", "R": 1, "arg": m, "bad": what})
+                    out.append({"rep": rep, "shape": s, "R": 1, "arg": m, "bad": what})
         return out
 
     def run(self, c, r):
         X = mk_holder(r, c["rep"], c["shape"])
-        return (lambda: X.nvecs(c["arg"], 1)), X
+        return (lambda: X.nvecs(c["arg"], c["R"])), X
+
+
+class Mttkrps(Op):
+    name = "mttkrps"
+    covers = (("tensor", "mttkrps"),)
+
+    def gen(self, rng, tier):
+        out = []
+        shapes = [x for x in SHAPES if len(x) >= 2] + [[4, 2, 2, 3], [2, 1, 4], [1, 2, 1]]
+        if tier == "quick":
+            shapes = rng.sample(shapes, 6)
+        for s in shapes:
+            N = len(s)
+            for R in (1, 2):
+                Us = [[m, R] for m in s]
+                base = {"shape": s, "U": Us, "kt": False}
+                out.append(dict(base, bad=None))
+                out.append(dict(base, kt=True, bad=None))
+                for k in range(N):
+                    for L in bad_lengths(s[k], [x for x in s if x != s[k]][:1]):
+                        if L > 0:
+                            u2 = [list(u) for u in Us]
+                            u2[k][0] = L
+                            out.append(dict(base, U=u2, bad="factor rows", pending=True))
+                    for C in bad_lengths(R)[:2]:
+                        if C > 0:
+                            u2 = [list(u) for u in Us]
+                            u2[k][1] = C
+                            out.append(dict(base, U=u2, bad="factor columns", pending=True))
+                out.append(dict(base, U=Us[:-1], bad="list length", pending=True))
+                out.append(dict(base, U=Us + [Us[-1]], bad="list length", pending=True))
+        out.append({"shape": [3], "U": [[3, 2]], "kt": False, "bad": "order < 2"})
+        return out
+
+    def run(self, c, r):
+        X = mk_dense(r, c["shape"])
+        Us = [mk_mat(r, a, b) for a, b in c["U"]]
+        if c["kt"]:
+            K = ttb.ktensor(Us, np.ones(c["U"][0][1]))
+            return (lambda: X.mttkrps(K)), X
+        return (lambda: X.mttkrps(Us)), X
+
+    def req(self, c):
+        return {"shape": c["shape"], "U": c["U"]}
+
+
+class Ttsv(Op):
+    name = "ttsv"
+    covers = (("tensor", "ttsv"),)
+
+    def gen(self, rng, tier):
+        out = []
+        for s in ([3, 3, 3], [2, 2], [2, 2, 2, 2], [1, 1, 1], [3], [4, 2, 8], [2, 3, 4], [3, 2, 2], [2, 4], [1, 2, 2], [2, 2, 3]):
+            N = len(s)
+            cubic = len(set(s)) == 1
+            for ver in (None, 1, 2):
+                for skip in [None] + list(range(N)):
+                    first = 0 if skip is None else skip + 1
+                    mult = s[first:]
+                    n = s[0] if (ver != 1 or not mult) else mult[0]
+                    base = {"shape": s, "veclen": n, "skip": skip, "version": ver}
+                    if ver == 1:
+                        good = all(e == n for e in mult)
+                        out.append(dict(base, bad=None if good else "vector length"))
+                    else:
+                        pend = not cubic
+                        out.append(dict(base, bad=None if cubic else "modes of different size", **({"pending": True} if pend else {})))
+                    if mult and (cubic or ver == 1):
+                        for L in bad_lengths(n)[:3]:
+                            out.append(dict(base, veclen=L, bad="vector length"))
+                for skip, what in ((-1, "mode<0"), (N, "mode=N"), (N + 2, "mode>N")):
+                    out.append({"shape": s, "veclen": s[0], "skip": skip, "version": ver, "bad": "skip_dim " + what, "pending": True})
+            out.append({"shape": s, "veclen": s[0], "skip": None, "version": 3, "bad": "version"})
+        return out
+
+    def run(self, c, r):
+        X = mk_dense(r, c["shape"])
+        v = mk_vec(r, c["veclen"])
+        return (lambda: X.ttsv(v, c["skip"], c["version"])), X
+
+
+class Symmetry(Op):
+    name = "symmetry"
+    covers = (("tensor", "symmetrize"), ("tensor", "issymmetric"), ("ktensor", "symmetrize"))
+
+    def gen(self, rng, tier):
+        out = []
+        for s in ([2, 2, 2], [2, 2, 3], [3, 3], [2, 3, 2], [1, 1, 1], [2, 2, 2, 2], [3, 2, 3, 2]):
+            N = len(s)
+            cubic = len(set(s)) == 1
+            for old in (False, True):
+                for fn in ("symmetrize", "issymmetric"):
+                    b = {"fn": fn, "shape": s, "old": old}
+                    ext_bad = None if (cubic or fn == "issymmetric") else "extents differ"
+                    out.append(dict(b, grps=None, bad=ext_bad))
+                    eq = [k for k in range(N) if s[k] == s[0]]
+                    if len(eq) >= 2:
+                        out.append(dict(b, grps=[eq[:2]], bad=None))
+                        out.append(dict(b, grps=[eq[:2][::-1]], bad=None))
+                    if N == 4 and s[0] == s[2] and s[1] == s[3]:
+                        out.append(dict(b, grps=[[0, 2], [1, 3]], bad=None))
+                        if fn == "symmetrize":
+                            out.append(dict(b, grps=[[0, 2], [2, 0]], bad="groups overlap"))
+                    if N >= 3 and fn == "symmetrize" and cubic:
+                        out.append(dict(b, grps=[[0, 1], [1, 2]], bad="groups overlap"))
+                    for g, what in (([0, 0], "mode repeated"), ([N - 1, N - 1], "mode repeated"), ([0, -1], "mode<0"),
+                                    ([-N, 1 % N], "mode=-N")):
+                        out.append(dict(b, grps=[g], bad=what, pending=True))
+                    out.append(dict(b, grps=[[0, N]], bad="mode=N"))
+                    out.append(dict(b, grps=[[0, N + 2]], bad="mode>N"))
+                    if not cubic and fn == "symmetrize":
+                        dif = [k for k in range(N) if s[k] != s[0]][0]
+                        out.append(dict(b, grps=[[0, dif]], bad="extents differ"))
+            out.append({"fn": "ksymmetrize", "shape": s, "old": False, "grps": None, "bad": None if cubic else "extents differ"})
+        return out
+
+    def run(self, c, r):
+        if c["fn"] == "ksymmetrize":
+            K = mk_kt(r, c["shape"])
+            return (lambda: K.symmetrize()), K
+        X = mk_dense(r, c["shape"])
+        g = None if c["grps"] is None else np.array(c["grps"], dtype=int)
+        ver = 1 if c["old"] else None
+        if c["fn"] == "symmetrize":
+            return (lambda: X.symmetrize(g, ver)), X
+        return (lambda: X.issymmetric(g, ver)), X
+
+
+class Kmatch(Op):
+    name = "kmatch"
+    covers = (("ktensor", "fixsigns"), ("ktensor", "score"))
+
+    def gen(self, rng, tier):
+        out = []
+        for s in ([2, 3, 4], [3, 3], [2, 1, 2]):
+            for fn in ("fixsigns", "score"):
+                for ra, rb in ((2, 2), (3, 2)):
+                    b = {"fn": fn, "sa": s, "sb": s, "ra": ra, "rb": rb}
+                    out.append(dict(b, bad=None))
+                    for t in mismatched_shapes(s)[:5]:
+                        out.append(dict(b, sb=t, bad="shape mismatch", **({"pending": True} if fn == "fixsigns" else {})))
+                out.append({"fn": fn, "sa": s, "sb": s, "ra": 2, "rb": 3, "bad": "more components",
+                            **({"pending": True} if fn == "fixsigns" else {})})
+        return out
+
+    def run(self, c, r):
+        A, B = mk_kt(r, c["sa"], c["ra"]), mk_kt(r, c["sb"], c["rb"])
+        if c["fn"] == "fixsigns":
+            return (lambda: A.fixsigns(B)), A
+        return (lambda: A.score(B)[0]), A
+
+
+class Update(Op):
+    name = "update"
+    covers = (("ktensor", "update"),)
+
+    def gen(self, rng, tier):
+        out = []
+        for s in ([2, 3, 4], [3, 3], [2]):
+            N = len(s)
+            for R in (1, 2):
+                need = lambda ms: sum(R if k == -1 else s[k] * R for k in ms)
+                for ms in ([0], [-1], list(range(-1, N)), [N - 1], sorted(rng.sample(range(-1, N), min(2, N + 1)))):
+                    b = {"shape": s, "R": R, "modes": ms, "n": need(ms)}
+                    out.append(dict(b, bad=None))
+                    out.append(dict(b, n=need(ms) - 1, bad="data too short", **({"pending": True} if len(ms) > 1 else {})))
+                    out.append(dict(b, modes=ms + [N], n=need(ms) + R, bad="mode=N", pending=True))
+                    out.append(dict(b, modes=ms + [ms[-1]], n=2 * need(ms), bad="mode repeated", pending=True))
+                if N >= 2:
+                    out.append({"shape": s, "R": R, "modes": [1, 0], "n": need([0, 1]), "bad": "modes not ascending"})
+                    out.append({"shape": s, "R": R, "modes": [-2], "n": s[-2] * R, "bad": "mode<-1", "pending": True})
+                out.append({"shape": s, "R": R, "modes": [N], "n": R, "bad": "mode=N"})
+                out.append({"shape": s, "R": R, "modes": [N + 2], "n": R, "bad": "mode>N"})
+        return out
+
+    def run(self, c, r):
+        K = mk_kt(r, c["shape"], c["R"])
+        data = np.ones(c["n"])
+        return (lambda: K.update(c["modes"], data)), K
+
+
+class Reconstruct(Op):
+    name = "reconstruct"
+    covers = (("ttensor", "reconstruct"),)
+
+    def gen(self, rng, tier):
+        out = []
+        for s in ([2, 3, 4], [3, 3], [4, 2]):
+            N = len(s)
+            for m in range(N):
+                b = {"shape": s, "modes": [m]}
+                out.append(dict(b, samples=[{"k": "idx", "max": s[m] - 1}], bad=None))
+                out.append(dict(b, samples=[{"k": "mat", "rows": 5, "cols": s[m]}], bad=None))
+                out.append(dict(b, samples=[{"k": "idx", "max": s[m]}], bad="sample index = extent"))
+                out.append(dict(b, samples=[{"k": "mat", "rows": 5, "cols": s[m] + 1}], bad="sampling matrix columns"))
+                out.append(dict(b, samples=[{"k": "mat", "rows": s[m], "cols": 5}], bad="sampling matrix transposed"))
+                out.append(dict(b, samples=None, bad="modes without samples"))
+                out.append(dict(b, samples=[{"k": "idx", "max": 0}, {"k": "idx", "max": 0}], bad="number of samples"))
+                out.append(dict(b, modes=[m - N], samples=[{"k": "idx", "max": 0}], bad="mode<0", pending=True))
+                out.append(dict(b, modes=[m, m], samples=[{"k": "idx", "max": 0}, {"k": "idx", "max": 0}], bad="mode repeated", pending=True))
+            out.append({"shape": s, "modes": [N], "samples": [{"k": "idx", "max": 0}], "bad": "mode=N"})
+            out.append({"shape": s, "modes": None, "samples": None, "bad": None})
+            out.append({"shape": s, "modes": None, "samples": [{"k": "idx", "max": 0} for _ in s], "bad": None})
+            out.append({"shape": s, "modes": list(range(N))[::-1], "samples": [{"k": "idx", "max": 0} for _ in s], "bad": None})
+        return out
+
+    def run(self, c, r):
+        T = mk_tt(r, c["shape"])
+
+        def mk(x):
+            if x["k"] == "idx":
+                return np.array(sorted({0, x["max"]}), dtype=int)
+            return mk_mat(r, x["rows"], x["cols"])
+        samples = None if c["samples"] is None else [mk(x) for x in c["samples"]]
+        return (lambda: T.reconstruct(samples, c["modes"])), T
+
+
+class FromFunction(Op):
+    name = "from_function"
+    covers = (("tensor", "from_function"), ("sptensor", "from_function"), ("ktensor", "from_function"))
+
+    def gen(self, rng, tier):
+        out = []
+        for s in ([2, 3], [3, 3, 2], [4]):
+            n = gen.numel(s)
+            out.append({"k": "tensor", "shape": s, "ret": s, "bad": None})
+            out.append({"k": "tensor", "shape": s, "ret": [n], "bad": None})
+            out.append({"k": "tensor", "shape": s, "ret": [n + 1], "bad": "element count"})
+            out.append({"k": "tensor", "shape": s, "ret": s + [2], "bad": "element count"})
+            for nz in (1, n - 1, n):
+                out.append({"k": "sptensor", "shape": s, "nz": nz, "ok": True, "bad": None})
+            out.append({"k": "sptensor", "shape": s, "nz": 2, "ok": False, "bad": "number of values"})
+            out.append({"k": "sptensor", "shape": s, "nz": n + 1, "ok": True, "bad": "more than cells"})
+            out.append({"k": "sptensor", "shape": s, "nz": -1, "ok": True, "bad": "negative count"})
+            for R in (1, 2):
+                good = [[m, R] for m in s]
+                out.append({"k": "ktensor", "shape": s, "R": R, "ret": good, "bad": None})
+                for k in range(len(s)):
+                    b2 = [list(x) for x in good]
+                    b2[k][0] += 1
+                    out.append({"k": "ktensor", "shape": s, "R": R, "ret": b2, "bad": "factor rows", "pending": True})
+                    b2 = [list(x) for x in good]
+                    b2[k][1] += 1
+                    out.append({"k": "ktensor", "shape": s, "R": R, "ret": b2, "bad": "factor columns",
+                                **({"pending": True} if len(s) == 1 else {})})
+        return out
+
+    def run(self, c, r):
+        s = tuple(c["shape"])
+        if c["k"] == "tensor":
+            ret = tuple(c["ret"])
+            return (lambda: ttb.tensor.from_function(lambda sh: np.ones(ret), s)), None
+        if c["k"] == "sptensor":
+            np.random.seed(r.randrange(2 ** 31))
+            f = (lambda sh: np.ones(sh)) if c["ok"] else (lambda sh: np.ones((sh[0] + 1, 1)))
+            return (lambda: ttb.sptensor.from_function(f, s, c["nz"])), None
+        rets = iter([tuple(x) for x in c["ret"]])
+        return (lambda: ttb.ktensor.from_function(lambda sh: np.ones(next(rets)), s, c["R"])), None
+
+
+class MatIndex(Op):
+    """tenmat / sptenmat cell access and sptenmat.from_array"""
+    name = "matindex"
+    covers = (("tenmat", "__getitem__"), ("tenmat", "__setitem__"), ("sptenmat", "__setitem__"), ("sptenmat", "from_array"))
+
+    def gen(self, rng, tier):
+        out = []
+        for s in ([2, 3, 4], [3, 2], [2, 2, 2]):
+            rows, cols = s[0], gen.numel(s[1:])
+            for wr in (False, True):
+                b = {"k": "tenmat", "shape": s, "mshape": [rows, cols], "write": wr}
+                for i, j, bad in ((0, 0, None), (rows - 1, cols - 1, None), (-1, -cols, None), (rows, 0, "row = extent"),
+                                  (0, cols, "column = extent"), (-rows - 1, 0, "row < -extent"), (0, cols + 3, "column > extent")):
+                    out.append(dict(b, i=i, j=j, bad=bad))
+            b = {"k": "sptenmat", "shape": s, "mshape": [rows, cols]}
+            out.append(dict(b, rsubs=[0], csubs=[cols - 1], nvals=None, bad=None))
+            out.append(dict(b, rsubs=[0, rows - 1], csubs=[0, 1], nvals=4, bad=None))
+            out.append(dict(b, rsubs=[0, rows - 1], csubs=[0, 1], nvals=None, bad=None))
+            out.append(dict(b, rsubs=[rows], csubs=[0], nvals=None, bad="row = extent", pending=True))
+            out.append(dict(b, rsubs=[0], csubs=[cols], nvals=None, bad="column = extent", pending=True))
+            out.append(dict(b, rsubs=[-1], csubs=[0], nvals=None, bad="row < 0", pending=True))
+            out.append(dict(b, rsubs=[0], csubs=[-1], nvals=None, bad="column < 0", pending=True))
+            out.append(dict(b, rsubs=[0, rows - 1], csubs=[0, 1], nvals=3, bad="number of values", pending=True))
+            out.append(dict(b, rsubs=[0, rows - 1], csubs=[0, 1], nvals=5, bad="number of values", pending=True))
+            N = len(s)
+            b = {"k": "from_array", "tshape": s, "rdims": [0], "cdims": list(range(1, N))}
+            out.append(dict(b, ashape=[rows, cols], bad=None))
+            out.append(dict(b, ashape=[max(1, rows - 1), cols], bad=None))
+            out.append(dict(b, ashape=[rows + 1, cols], bad="array rows"))
+            out.append(dict(b, ashape=[rows, cols + 1], bad="array columns"))
+            out.append(dict(b, ashape=[cols, rows], bad="array transposed") if rows != cols else dict(b, ashape=[rows + 2, cols], bad="array rows"))
+            out.append(dict(b, rdims=[0, 0], ashape=[rows, cols], bad="rdims mode repeated"))
+            out.append(dict(b, cdims=list(range(1, N)) + [N], ashape=[rows, cols], bad="cdims mode=N"))
+        return out
+
+    def run(self, c, r):
+        if c["k"] == "tenmat":
+            M = mk_dense(r, c["shape"]).to_tenmat(np.array([0]))
+            key = (c["i"], c["j"])
+            if c["write"]:
+                return (lambda: M.__setitem__(key, 7.0)), M
+            return (lambda: M[key]), M
+        if c["k"] == "sptenmat":
+            M = mk_sparse(r, c["shape"]).to_sptenmat(np.array([0]))
+            val = 7.0 if c["nvals"] is None else np.arange(1.0, c["nvals"] + 1).reshape(-1, 1)
+            key = (c["rsubs"], c["csubs"])
+            return (lambda: M.__setitem__(key, val)), M
+        A = np.ones(tuple(c["ashape"]))
+        return (lambda: ttb.sptenmat.from_array(A, arr(c["rdims"]), arr(c["cdims"]), tuple(c["tshape"]))), None
+
+    def req(self, c):
+        return {k: v for k, v in c.items() if k not in ("bad", "opname", "pending")}
+
+
+class Misc(Op):
+    """tenfun with a function of the stacked operands, ktensor.viz option lists, sptensor.spmatrix"""
+    name = "misc"
+    covers = (("tensor", "tenfun_unary"), ("ktensor", "viz"), ("sptensor", "spmatrix"))
+
+    def gen(self, rng, tier):
+        out = []
+        for s in ([2, 3], [2, 2, 2], [3]):
+            for rep in ("dense", "sparse", "ktensor", "ndarray"):
+                b = {"k": "tenfun", "shape": s, "rep": rep}
+                out.append(dict(b, others=[s], bad=None))
+                out.append(dict(b, others=[s, s], bad=None))
+                for t in mismatched_shapes(s)[:4]:
+                    out.append(dict(b, others=[t], bad="shape mismatch"))
+                    out.append(dict(b, others=[s, t], bad="shape mismatch"))
+            N = len(s)
+            for which in (("plots", "rel_widths", "rel_heights", "mode_titles") if N > 1 else ()):
+                out.append({"k": "viz", "shape": s, "which": which, "lens": [N], "bad": None})
+                out.append({"k": "viz", "shape": s, "which": which, "lens": [N + 1], "bad": "option list length"})
+                out.append({"k": "viz", "shape": s, "which": which, "lens": [N - 1], "bad": "option list length"})
+            out.append({"k": "spmatrix", "shape": s, "bad": None if N == 2 else "not a matrix"})
+        return out
+
+    def run(self, c, r):
+        if c["k"] == "tenfun":
+            X = mk_dense(r, c["shape"])
+
+            def mk(t):
+                if c["rep"] == "ndarray":
+                    return np.ones(tuple(t))
+                return mk_holder(r, c["rep"], t)
+            others = [mk(t) for t in c["others"]]
+            return (lambda: X.tenfun(lambda M: M.sum(axis=0), *others)), X
+        if c["k"] == "viz":
+            import matplotlib
+            matplotlib.use("Agg")
+            import matplotlib.pyplot as plt
+            K = mk_kt(r, c["shape"], len(c["shape"]))  # as many components as modes: one height per row
+            n = c["lens"][0]
+            val = {"plots": [lambda v, ax: ax.plot(v)] * n, "rel_widths": [1] * n, "rel_heights": [1] * n,
+                   "mode_titles": ["m"] * n}[c["which"]]
+
+            def go():
+                try:
+                    return K.viz(show_figure=False, **{c["which"]: val})
+                finally:
+                    plt.close("all")
+            return go, None
+        S = mk_sparse(r, c["shape"])
+        return (lambda: S.spmatrix()), S
 
 
 class Mask(Op):
@@ -1171,6 +1540,11 @@ class Algorithms(Op):
             out.append(dict(b, opt={"dimorder": gen.perm(rng, N)}, bad=None))
             out.append(dict(b, opt={"init": [[m, 2] for m in s]}, bad=None))
             out.append(dict(b, rank=[2] * (N + 1), bad="rank length"))
+            out.append(dict(b, rank=min(s), bad=None))
+            for rk, what in ((0, "rank 0"), (-1, "rank < 0"), (max(s) + 1, "rank > extent"), (min(s) + 1, "rank > extent")):
+                out.append(dict(b, rank=rk, bad=what))
+                out.append(dict(b, rank=[rk] + [1] * (N - 1), bad=what) if rk != min(s) + 1 or s[0] == min(s)
+                           else dict(b, rank=[1] * s.index(min(s)) + [rk] + [1] * (N - 1 - s.index(min(s))), bad=what))
             if N > 2:
                 out.append(dict(b, rank=[2] * (N - 1), bad="rank length"))
             for what, p in bad_perms(N):
@@ -1185,6 +1559,11 @@ class Algorithms(Op):
             out.append(dict(b, opt={"ranks": [1] * N}, bad=None))
             out.append(dict(b, opt={"dimorder": gen.perm(rng, N)}, bad=None))
             out.append(dict(b, opt={"ranks": [1] * (N + 1)}, bad="ranks length"))
+            out.append(dict(b, opt={"ranks": list(s)}, bad=None))
+            out.append(dict(b, opt={"ranks": [0] * N}, bad=None))
+            out.append(dict(b, opt={"ranks": [-1] + [1] * (N - 1)}, bad="rank < 0"))
+            out.append(dict(b, opt={"ranks": [1] * (N - 1) + [s[-1] + 1]}, bad="rank > extent"))
+            out.append(dict(b, opt={"ranks": [x + 2 for x in s]}, bad="rank > extent"))
             out.append(dict(b, opt={"ranks": [1] * (N - 1)}, bad="ranks length"))
             for what, p in bad_perms(N):
                 out.append(dict(b, opt={"dimorder": p}, bad="dimorder " + what))
@@ -1310,7 +1689,7 @@ class ImportData(Op):
 
 
 OPS = [Dimscheck(), Ttv(), Ttm(), Mttkrp(), Innerprod(), Elementwise(), TenmatMul(), Ttt(), Contract(), Collapse(), Scale(),
-       Permute(), Reshape(), ToMat(), Constructors(), KtensorModes(), Nvecs(), Mask(), Extract(), Khatrirao(), Algorithms(), ImportData()]
+       Permute(), Reshape(), ToMat(), Constructors(), KtensorModes(), Nvecs(), Mttkrps(), Ttsv(), Symmetry(), Kmatch(), Update(), Reconstruct(), FromFunction(), MatIndex(), Misc(), Mask(), Extract(), Khatrirao(), Algorithms(), ImportData()]
 OPS_BY_NAME = {o.name: o for o in OPS}
 
 # ---------------------------------------------------------------------------------------------
@@ -1322,8 +1701,11 @@ NO_PRECONDITION = {
     "copy", "double", "full", "to_tensor", "to_sptensor", "find", "norm", "nnz", "ndims", "shape", "order", "isequal",
     "exp", "logical_not", "squeeze", "allsubs", "ones", "elemfun", "tovec", "ncomponents", "ctranspose", "parts",
     "__neg__", "__pos__", "__repr__", "__str__", "__deepcopy__", "__pow__", "__rtruediv__", "__rmul__", "__mul__",
-    "__truediv__", "__radd__", "__rsub__",
+    "__truediv__", "__radd__", "__rsub__", "issymmetric_k", "squash",
 }
+#: reads and writes by key (growth on assignment, key forms, out-of-range keys) are property C04's
+C04_METHODS = {("tensor", "__getitem__"), ("tensor", "__setitem__"), ("sptensor", "__getitem__"),
+               ("sptensor", "__setitem__"), ("sptensor", "subdims")}
 
 
 def public_surface():
@@ -1352,8 +1734,10 @@ def coverage_tags():
     for cls, n in public_surface():
         if (cls, n) in covered:
             tags.append(f"covered:{cls}.{n}")
-        elif n in NO_PRECONDITION:
+        elif n in NO_PRECONDITION or (cls, n) == ("ktensor", "issymmetric"):
             tags.append(f"outside:{cls}.{n}")
+        elif (cls, n) in C04_METHODS:
+            tags.append(f"c04:{cls}.{n}")
         else:
             tags.append(f"uncovered:{cls}.{n}")
     return tags
@@ -1399,6 +1783,7 @@ class Malformed(Family):
             cs = op.gen(orng, tier)
             seen = set()
             for c in cs:
+                c = {k: v for k, v in c.items() if k != "pending"}
                 c = dict(c, opname=op.name)
                 h = case_hash(c)
                 if h not in seen:
